@@ -479,3 +479,28 @@ def dest_writes(ctx, body, field):
         if mentions_field(e, field):
             out.append((b, si, st))
     return out
+
+
+def require_cut(ctx, body, block, preds, key, what=""):
+    """Every path entry -> block takes at least one edge whose guard satisfies one of `preds`
+    (a disjunctive guard: accepted-by-A or accepted-by-B ...). Each pred must match >= 1 guard."""
+    gi = ctx.gi(body)
+    edges = []
+    ok = True
+    for label, pred in preds:
+        gs = [g for g in gi.all_guards() if pred(g) and not is_tracing(g.macros)]
+        if not gs:
+            ctx.bad("%s|%s" % (key, label), "%s: no guard `%s` exists in %s" % (what, label, short(body.path)), body.where(block))
+            ok = False
+        edges.extend(g.edge for g in gs)
+    if not ok:
+        return False
+    reach = block in body.reachable(0, removed_edges=edges)
+    labels = " | ".join(l for l, _ in preds)
+    ctx.check(not reach, "%s|cut(%s)" % (key, labels), "%s: every path passes one of {%s}" % (what, labels), body.where(block), bad_detail="%s is reachable on a path that passes none of {%s}" % (what, labels))
+    return not reach
+
+
+def reachable_from_edge(body, g):
+    """Blocks reachable from the target of guard g's edge."""
+    return body.reachable(g.edge[1])
